@@ -140,9 +140,27 @@ func (fv *FV) stateEnv(st *State, errs *[]string) *Env {
 		vars[k] = v
 	}
 	oldEnv := &Env{fv: fv, st: st, heap: map[string]Term{}, epoch: 0, vars: vars, pkgName: fv.pkgName(), err: errs}
-	env := &Env{fv: fv, st: st, heap: st.heap, epoch: st.epoch, vars: map[string]Term{}, pkgName: fv.pkgName(), err: errs, old: oldEnv}
+	env := &Env{fv: fv, st: st, heap: st.heap, epoch: st.epoch, vars: map[string]Term{}, pkgName: fv.pkgName(), err: errs, old: oldEnv, cnt: st.cnt}
+	if env.cnt == nil {
+		env.cnt = map[string]Term{}
+	}
 	for k, v := range vars {
 		env.vars[k] = v
+	}
+	if snap := st.loopSnap; snap != nil {
+		pv := map[string]Term{}
+		for k, v := range vars {
+			pv[k] = v
+		}
+		for k, v := range snap.ghosts {
+			pv[k] = v
+		}
+		pe := &Env{fv: fv, st: st, heap: snap.heap, epoch: snap.epoch, vars: pv, pkgName: fv.pkgName(), err: errs, old: oldEnv, cnt: snap.cnt}
+		if pe.cnt == nil {
+			pe.cnt = map[string]Term{}
+		}
+		pe.cells = fv.cellLookup(snap)
+		env.prev = pe
 	}
 	return env
 }
@@ -193,6 +211,9 @@ func (fv *FV) enterBlock(st *State, from, to *ssa.BasicBlock) *State {
 	}
 	env := fv.stateEnv(st, &errs)
 	env.cells = fv.cellLookup(st)
+	if !isBack {
+		env.prev = nil // at loop entry prev(e) is e
+	}
 	pos := loopPos(li)
 	if li.Spec != nil {
 		for i, c := range li.Spec.Invariants {
@@ -227,6 +248,8 @@ func (fv *FV) enterBlock(st *State, from, to *ssa.BasicBlock) *State {
 	}
 	// entry: havoc everything the loop may modify, assume invariant
 	fv.havocLoop(st, li)
+	fv.havocCounters(st, li)
+	st.loopSnap = nil
 	env = fv.stateEnv(st, &errs)
 	env.cells = fv.cellLookup(st)
 	if li.Spec != nil {
@@ -242,7 +265,102 @@ func (fv *FV) enterBlock(st *State, from, to *ssa.BasicBlock) *State {
 	}
 	fv.reportErrs(errs)
 	st.path += fmt.Sprintf("L%d", li.Ord)
+	if fv.usesPrev() {
+		st.loopSnap = st.clone()
+		st.loopSnap.loopSnap = nil
+	}
 	return st
+}
+
+// havocCounters: at a loop head every call counter the contract mentions becomes an arbitrary value not
+// below its current one (the invariant says what it is).
+func (fv *FV) havocCounters(st *State, li *LoopInfo) {
+	var names []string
+	for _, n := range fv.counterNames() {
+		if loopMayCall(li, n) {
+			names = append(names, n)
+		}
+	}
+	if len(names) == 0 {
+		return
+	}
+	nc := make(map[string]Term, len(names))
+	for k, v := range st.cnt {
+		nc[k] = v
+	}
+	for _, n := range names {
+		old, ok := nc[n]
+		if !ok {
+			old = mkInt(0)
+		}
+		nv := fv.freshConst(st, "cnt_"+smtName(n), SInt, types.Typ[types.Int])
+		st.assume(app(SBool, ">=", nv, old))
+		nc[n] = nv
+	}
+	st.cnt = nc
+}
+
+// counterNames: the NAMEs of calls(NAME) anywhere in the function's contract.
+func (fv *FV) counterNames() []string {
+	if fv.cntNames != nil || fv.spec == nil {
+		return fv.cntNames
+	}
+	seen := map[string]bool{}
+	usesPrev := false
+	var walk func(e Expr)
+	walk = func(e Expr) {
+		switch x := e.(type) {
+		case *ECall:
+			if x.Fn == "calls" && len(x.Args) == 1 {
+				switch a := x.Args[0].(type) {
+				case *EStr:
+					seen[lastPart(a.V)] = true
+				case *EIdent:
+					seen[lastPart(a.Name)] = true
+				}
+				return
+			}
+			if x.Fn == "prev" {
+				usesPrev = true
+			}
+			for _, a := range x.Args {
+				walk(a)
+			}
+		default:
+			for _, c := range exprChildren(e) {
+				walk(c)
+			}
+		}
+	}
+	var cls []*Clause
+	cls = append(cls, fv.spec.Requires...)
+	cls = append(cls, fv.spec.Ensures...)
+	for _, l := range fv.spec.Loops {
+		cls = append(cls, l.Invariants...)
+		cls = append(cls, l.Decreases...)
+	}
+	for _, a := range fv.spec.Asserts {
+		cls = append(cls, a.Clause)
+	}
+	for _, g := range fv.spec.GhostAt {
+		cls = append(cls, g.Clause)
+	}
+	for _, c := range cls {
+		if c != nil {
+			walk(c.E)
+		}
+	}
+	fv.cntNames = sortedKeys(seen)
+	if fv.cntNames == nil {
+		fv.cntNames = []string{}
+	}
+	fv.prevUsed = usesPrev
+	return fv.cntNames
+}
+
+func (fv *FV) usesPrev() bool {
+	fv.counterNames()
+	return fv.prevUsed
 }
 
 func (fv *FV) reportErrs(errs []string) {
@@ -681,4 +799,35 @@ func (fv *FV) orderInsensitive(li *LoopInfo) (bool, string) {
 		}
 	}
 	return true, "copy loop keyed by the range key"
+}
+
+// loopMayCall: does the loop body contain a call that could be a call of name (by name; a call through
+// a function value or a closure defined in the function counts as possibly any)?
+func loopMayCall(li *LoopInfo, name string) bool {
+	for b := range li.Body {
+		for _, in := range b.Instrs {
+			ci, ok := in.(ssa.CallInstruction)
+			if !ok {
+				continue
+			}
+			c := ci.Common()
+			if c.IsInvoke() {
+				if c.Method.Name() == name {
+					return true
+				}
+				continue
+			}
+			if _, isB := c.Value.(*ssa.Builtin); isB {
+				continue
+			}
+			f := c.StaticCallee()
+			if f == nil {
+				return true
+			}
+			if f.Name() == name || f.Parent() != nil {
+				return true
+			}
+		}
+	}
+	return false
 }
